@@ -1,4 +1,5 @@
 import SFV.Model.Claims
+import SFV.Model.ClaimStatus
 import SFV.Model.Proto
 open SFV SFV.Proto SFV.Claims
 
@@ -47,8 +48,84 @@ def go : St → List String → Nat → Nat → String
         | none => fail "parse"
       else fail "parse"
 
+/-! `status <acts…>`: replay on the status-refined model (`SFV/Model/ClaimStatus.lean`) run with the GENERATED `is_recovering`:
+    a<p>:<j> acquire, r<p>:<j> release, k<p>:<j>:<T|F>:<STATUS> a check under the lock that saw the scheduler status STATUS and
+    answered T/F, c<p> claim. Before a check the model's status of the job is advanced along the re-execution life cycle
+    (ROLLBACK → FIREABLE → RUNNING → COMPLETED | failed) until it equals the observed one — the engine's schedule / start / finish
+    steps are not logged one by one; a status the life cycle cannot explain is reported.
+    -> `ok maxclaims=<n>` | `disabled <i> <why>` -/
+
+namespace StatusReplay
+open SFV.ClaimStatus SFV.Gen
+
+def parseStatus : String → Option JobStatus
+  | "WAITING" => some .WAITING | "FIREABLE" => some .FIREABLE | "RUNNING" => some .RUNNING | "SKIPPED" => some .SKIPPED
+  | "COMPLETED" => some .COMPLETED | "FAILED" => some .FAILED | "CANCELLED" => some .CANCELLED | "ROLLBACK" => some .ROLLBACK
+  | "RECOVERY" => some .RECOVERY | "RECOVERED" => some .RECOVERED | _ => none
+
+/-- FAILED (the job failed, `recover` has not yet marked it) and RECOVERY are the model's "failed" end of an execution -/
+def norm : JobStatus → JobStatus
+  | .FAILED => .RECOVERY
+  | st => st
+
+/-- advance job `j` along the life cycle until its status is `want` (at most `fuel` steps) -/
+def catchUp (s : SFV.ClaimStatus.St) (j : Nat) (want : JobStatus) : Nat → Option SFV.ClaimStatus.St
+  | 0 => if s.status j = want then some s else none
+  | fuel + 1 =>
+      if s.status j = want then some s
+      else match s.status j with
+        | .ROLLBACK => (SFV.ClaimStatus.step isRecovering s (.schedule j)).bind (catchUp · j want fuel)
+        | .FIREABLE => (SFV.ClaimStatus.step isRecovering s (.start j)).bind (catchUp · j want fuel)
+        | .RUNNING => (SFV.ClaimStatus.step isRecovering s (.finish j (decide (want ≠ .RECOVERY)))).bind (catchUp · j want fuel)
+        | _ =>
+            -- an execution that no claim started (the first run of the job, or the re-run of a job after its own failure was
+            -- claimed and finished long ago): COMPLETED / failed → FIREABLE is the scheduler's `schedule`
+            if want = .FIREABLE ∨ want = .RUNNING ∨ want = .COMPLETED ∨ want = .RECOVERY then
+              if s.claims j = 0 then catchUp { s with status := SFV.ClaimStatus.upd s.status j .FIREABLE } j want fuel else none
+            else none
+
+def pjs (w : String) : Option (Nat × Nat × Bool × JobStatus) :=
+  match (w.drop 1).toString.splitOn ":" with
+  | [p, j, b, st] => match p.toNat?, j.toNat?, parseStatus st with
+    | some p, some j, some st => some (p, j, b == "T", st)
+    | _, _, _ => none
+  | _ => none
+
+def go : SFV.ClaimStatus.St → List String → Nat → Nat → String
+  | _, [], _, mx => s!"ok maxclaims={mx}"
+  | s, w :: ws, i, mx =>
+      let fail (why : String) := s!"disabled {i} {why}"
+      let cont (s' : SFV.ClaimStatus.St) (j : Nat) := go s' ws (i + 1) (max mx (s'.claims j))
+      if w.startsWith "a" then match pj w with
+        | some (p, j) => match SFV.ClaimStatus.step isRecovering s (.acquire p j) with
+          | some s' => cont s' j | none => fail "lock-held"
+        | none => fail "parse"
+      else if w.startsWith "r" then match pj w with
+        | some (p, j) => match SFV.ClaimStatus.step isRecovering s (.release p j) with
+          | some s' => cont s' j | none => fail "release"
+        | none => fail "parse"
+      else if w.startsWith "k" then match pjs w with
+        | some (p, j, b, st) =>
+            if isRecovering st ≠ b then fail s!"answer-differs-from-generated-status-test"
+            else match catchUp s j (norm st) 6 with
+              | none => fail s!"status-not-explained-by-life-cycle model={repr (s.status j)} claims={s.claims j}"
+              | some s1 => match SFV.ClaimStatus.step isRecovering s1 (.check p j) with
+                | some s' => cont s' j
+                | none => fail "check-without-lock"
+        | none => fail "parse"
+      else if w.startsWith "c" then match (w.drop 1).toNat? with
+        | some p => match s.pend p with
+          | some j => match SFV.ClaimStatus.step isRecovering s (.claim p) with
+            | some s' => cont s' j | none => fail "claim"
+          | none => fail "claim-without-negative-check"
+        | none => fail "parse"
+      else fail "parse"
+
+end StatusReplay
+
 def handle : List String → String
   | "claims" :: acts => go init acts 0 0
+  | "status" :: acts => StatusReplay.go SFV.ClaimStatus.init acts 0 0
   | _ => "bad-op"
 
 def main : IO Unit := runPure handle
